@@ -15,11 +15,11 @@ Inductive fty :=
 | FPrim            (* node, validity + values                      (Int32, Boolean, ...) *)
 | FBin             (* node, validity + offsets + data              (Utf8, LargeBinary, ...) *)
 | FList (c : fty)  (* node, validity + offsets, child              (List, LargeList, Map) *)
-| FFsl (c : fty)   (* node, validity, child                        (FixedSizeList) *)
+| FFsl (size : Z) (c : fty)   (* node, validity, child             (FixedSizeList of `size`) *)
 | FStruct (cs : list fty)  (* node, validity, children *)
 | FNull.           (* node only *)
 
-Inductive ev := Pass | CursorErr | BoundsPanic | NullLenErr | ValidityPanic.
+Inductive ev := Pass | CursorErr | BoundsPanic | NullLenErr | ValidityPanic | FslOverflowPanic.
 
 Record st := { nodes : list (Z * Z); bufs : list (Z * Z) }.
 
@@ -70,8 +70,15 @@ Fixpoint walk (t : fty) (body_len : Z) (s : st) : ev * st :=
   | FBin => match next_node s with None => (CursorErr, s) | Some (n, s1) => finish n (first_buf s1) (next_buffers 3 body_len s1) end
   | FList c => match next_node s with None => (CursorErr, s) | Some (n, s1) =>
                  match next_buffers 2 body_len s1 with (Pass, s2) => finish n (first_buf s1) (walk c body_len s2) | r => r end end
-  | FFsl c => match next_node s with None => (CursorErr, s) | Some (n, s1) =>
-                 match next_buffers 1 body_len s1 with (Pass, s2) => finish n (first_buf s1) (walk c body_len s2) | r => r end end
+  | FFsl size c => match next_node s with None => (CursorErr, s) | Some (n, s1) =>
+                 match next_buffers 1 body_len s1 with
+                 | (Pass, s2) =>
+                     (* ArrayData::validate: (offset + len).checked_mul(list_size).expect(..)      -> PANIC on overflow *)
+                     match finish n (first_buf s1) (walk c body_len s2) with
+                     | (Pass, s3) => if as_usize (fst n) * size <? 2^64 then (Pass, s3) else (FslOverflowPanic, s3)
+                     | r => r
+                     end
+                 | r => r end end
   | FStruct cs => match next_node s with None => (CursorErr, s) | Some (n, s1) =>
                  match next_buffers 1 body_len s1 with
                  | (Pass, s2) => finish n (first_buf s1) ((fix go (cs : list fty) (s : st) : ev * st :=
@@ -90,10 +97,10 @@ Fixpoint walk_fields (ts : list fty) (body_len : Z) (s : st) : ev * st :=
 
 (* number of nodes / buffers a field tree consumes *)
 Fixpoint n_nodes (t : fty) : nat :=
-  match t with FList c | FFsl c => S (n_nodes c) | FStruct cs => S (fold_right (fun c a => n_nodes c + a)%nat O cs) | _ => 1%nat end.
+  match t with FList c | FFsl _ c => S (n_nodes c) | FStruct cs => S (fold_right (fun c a => n_nodes c + a)%nat O cs) | _ => 1%nat end.
 Fixpoint n_bufs (t : fty) : nat :=
   match t with
   | FPrim => 2%nat | FBin => 3%nat | FNull => 0%nat
-  | FList c => (2 + n_bufs c)%nat | FFsl c => (1 + n_bufs c)%nat
+  | FList c => (2 + n_bufs c)%nat | FFsl _ c => (1 + n_bufs c)%nat
   | FStruct cs => S (fold_right (fun c a => n_bufs c + a)%nat O cs)
   end.
